@@ -17,6 +17,9 @@
   for a generator that has not started (TypeError, the body does not move, `is_stopped` stays False - `sendVal`).
   Re-entrant advances attempted by code the body calls are not part of the state machine; their expectation is the
   closed form at the end of this file (`reenterExpected`), evaluated by the driver - no theorem speaks about it.
+  NOT modelled: what an await of the body is resumed with (`_send_inner`'s `yield_result`, generator.py:154-164): the
+  observation field `bad` is the literal 0 in `observe`, so the observer clauses await-result / generator-arguments /
+  other-generator-disturbed are checked on the implementation only.
 -/
 namespace AsynqModel.Generator
 
@@ -348,6 +351,26 @@ def outerBody : Nat → St → Phase → Body
     | ((i1, ph1), .ok st) => st :: outerBody n i1 ph1
     | (_, .error _) => []
 
+/-- the outer loop after it has yielded `p` steps: the state of the INNER generator and where the loop is suspended
+    (an inner task it has yielded last has not been run yet - it runs before the loop is resumed, `outerResume`) -/
+def outerAfter : Nat → St → Phase → St × Phase
+  | 0, i, ph => (i, ph)
+  | p + 1, i, ph =>
+    match outerResume i ph with
+    | ((i1, ph1), .ok _) => outerAfter p i1 ph1
+    | ((i1, ph1), .error _) => (i1, ph1)
+
+/-- how far the inner generator (body `b`) has been advanced when the Python generator of the outer one has yielded `p`
+    items and (`fin`) has then run off its end: (items pulled from the inner body, inner body ran off its end).  At the
+    moments the harness observes (after a caller operation has returned) every task of every level is either not
+    started or computed, which is the grain of `outerResume`. -/
+def innerAt (b : Body) (p : Nat) (fin : Bool) : Nat × Bool :=
+  let (i, ph) := outerAfter p (init b) .atFor
+  if fin then
+    let r := outerResume i ph
+    (r.1.1.pulled, r.1.1.stopped)
+  else (i.pulled, i.stopped)
+
 /-- closed form of `outerBody`; `inTask` = the outer generator is awaiting an inner task whose Value has not been
     produced yet -/
 def wrapAux : Bool → Body → Body
@@ -365,10 +388,16 @@ def wrapN : Nat → Body → Body
   | 0, b => b
   | k + 1, b => wrap (wrapN k b)
 
+/-- `k` levels of nesting over the body `b0`, the outermost Python generator having yielded `p` items (`fin`: ran off
+    its end): what every level below must have yielded, from level `k - 1` down to the body itself (level 0) -/
+def innerLevels (b0 : Body) : Nat → Nat → Bool → List (Nat × Bool)
+  | 0, _, _ => []
+  | k + 1, p, fin => let x := innerAt (wrapN k b0) p fin; x :: innerLevels b0 k x.1 x.2
+
 /-! ## The property C17 as an observer over the observations alone (a sequential reference: the generator is
     a cursor over its body).  C17 is stated for bodies without `Value(END_OF_GENERATOR)` (`noMarker`): for such a
     payload "list_of_generator returns all the Values" and "END_OF_GENERATOR never appears in the result" contradict
-    each other, so no implementation can satisfy the statement there (see `C17_marker_payload_outside`). -/
+    each other, so no implementation can satisfy the statement there (see `C17_marker_payload_unsatisfiable`). -/
 
 /-- every Value payload in program order (the marker object as `.endMarker`) -/
 def payloads : Body → List Item
@@ -550,17 +579,18 @@ def watchStep (total : Nat) (w : Watch) (ob : Obs) : Except String Watch :=
           if r2 == refused a && ob.pos + w1.rest.length == total && ob.fin == w1.fin then .ok w1
           else .error "guard-started"
   | .send =>
-    -- `send(x)`, x not None: a generator that has not started refuses it (the code as it exists: CPython's TypeError;
-    -- the statement only needs: some exception other than StopIteration) and then NOTHING may have moved - the Values
-    -- are all still to be delivered; a send that is not refused must be a `next()`; any other generator treats it as
-    -- `next()`
+    -- `send(x)`, x not None.  `_AsyncGenerator.send` is the generator protocol's `send` (`next()` is `send(None)`):
+    -- a generator that has not started refuses a non-None value with TypeError (PEP 342) and then NOTHING may have
+    -- moved - the Values are all still to be delivered; any other generator treats it as `next()`.  (Until round 5
+    -- this clause accepted any exception but StopIteration, and a fresh generator that treated send(x) as next();
+    -- the second audit listed those as accepted wrong observations, and with them accepted `spec` was not the model:
+    -- `C17_spec_exact`.)
     if ob.sib.isSome then .error "sibling-unexpected"
     else if w.fresh total then
       if ob.bad != 0 then .error (badClause ob.bad)
-      else if ob.res.isRefusal && ob.pos + w.rest.length == total && ob.fin == w.fin then .ok w
-      else match watchBasic total w { ob with op := .next } with
-        | .ok w' => .ok w'
-        | .error _ => .error "send-rejected"
+      else if ob.res == .raised .typeError && ob.pos + w.rest.length == total && ob.fin == w.fin then .ok w
+      else if ob.res.isRefusal && ob.pos + w.rest.length == total && ob.fin == w.fin then .error "send-refusal-class"
+      else .error "send-rejected"
     else watchBasic total w { ob with op := .next }
   | _ => if ob.sib.isSome then .error "sibling-unexpected" else watchBasic total w ob
 
@@ -605,7 +635,11 @@ def outsideClause (obs : List Obs) : String :=
     `is_stopped` is False, so `self.generator.send` is reached and CPython refuses it: ValueError (generator already
     executing); `except StopIteration` does not match, nothing is marked stopped;
   * `take_first(gen, 0)` returns `[]` without touching anything.
-  In every case nothing moves: the rest of the history is judged by `spec` as if the attempt had not happened. -/
+  In every case nothing moves: the rest of the history is judged by `spec` as if the attempt had not happened.
+  Status of the three expectations: the first and the third are consequences of the property text (guard clause; "none
+  for n = 0").  About the second the property is SILENT: `reenterAccepts` (SPEC) only demands some exception other than
+  StopIteration, and that it is ValueError (CORR, `reenterCheck true`) is today's CPython behaviour - a regression test
+  of the code as it exists, not a verdict on C17. -/
 
 def prevIsAwait (b : Body) (j : Nat) : Bool :=
   j != 0 && (match b[j - 1]? with | some (.await _) => true | _ => false)
